@@ -56,6 +56,24 @@ CHECKS["C17"] = {
     "technique": TECH + "receiver/Freeze typing proof, loop-shape and call-graph termination analysis, control-dependence of Ok on the stopping test",
 }
 
+CHECKS["C01"] = {
+    "text": "For all inputs: the structure that makes row exchanges effective — every ordered comparison of element values reachable from the solvers compares "
+            "magnitudes; the pivot search is an arg-max over rows k..rows of the eliminated column; every matrix row exchange is mirrored on the right-hand side / "
+            "permutation with the same pair; elimination applies one multiplier (pivot as divisor) to the matrix row and the rhs entry; P*b precedes the sweeps; "
+            "forward sweep 0..i ascending, back substitution k+1..rows descending then division by the diagonal; index kinds consistent.",
+    "design_ref": "DESIGN.md §3 C01",
+    "note": "Decides pivoting/elimination/substitution structure only; backward error, exactness over rationals and agreement of the two solvers are not decidable statically.",
+    "technique": TECH + "magnitude dataflow on PartialOrd comparisons, arg-max recognition, exchange/row-operation pairing, sweep-range analysis",
+}
+CHECKS["C02"] = {
+    "text": "For all square inputs: determinant/inverse take &self over Freeze data and factorise a clone (self cannot change); the exchange counter is "
+            "incremented by exactly one exactly where rows are exchanged; the sign follows the counter's parity; the product runs over the full diagonal of the "
+            "factorised clone; every division reachable from determinant is dominated by a pivot-magnitude != 0 test (singular gives 0, not NaN); inverse has the forward/backward substitution shape on the permutation.",
+    "design_ref": "DESIGN.md §3 C02",
+    "note": "Equality with the exact determinant and A*inv(A)=I for every matrix, and rounding accuracy, are not decided statically.",
+    "technique": TECH + "effect typing proof, counter/exchange pairing, guard-dominated divisor discipline, substitution-shape patterns",
+}
+
 NOT_APPLICABLE = {
 }
 for _i in range(1, 21):
